@@ -79,21 +79,21 @@ theorem compInv_step (lv0 lv : Level) (hlv : LevelOK lv) (memb : List Nat) (hinv
       exact ⟨v, u, hv, hu, h2, h1, hc.symm⟩
 
 /-- the clusters returned by the outer loop lie inside connected components of the first level -/
-theorem louvainLoop_comp (res tolOpt tolAgg : Rat) (nAgg : Int) (coreFuel : Nat) (lv0 : Level) :
+theorem louvainLoopCapped_comp (res tolOpt tolAgg : Rat) (nAgg : Int) (lv0 : Level) :
     ∀ (fuel count : Nat) (lv : Level) (memb : List Nat) (incs : List Rat) (out : FitOut),
       LevelOK lv → memb.length = lv0.n → (∀ u, u < lv0.n → labOf memb u < lv.n) → CompInv lv0 lv memb →
-      louvainLoop res tolOpt tolAgg nAgg coreFuel fuel count lv memb incs = some out →
+      louvainLoopCapped res tolOpt tolAgg nAgg fuel count lv memb incs = some out →
       WithinComp lv0.graph out.labels := by
   intro fuel
   induction fuel with
-  | zero => intro count lv memb incs out _ _ _ _ h; simp [louvainLoop] at h
+  | zero => intro count lv memb incs out _ _ _ _ h; simp [louvainLoopCapped] at h
   | succ f ih =>
     intro count lv memb incs out hlv hmlen hmb hinv h
-    simp only [louvainLoop] at h
+    simp only [louvainLoopCapped] at h
     split at h
     · cases h
     · rename_i labels1 inc hopt
-      obtain ⟨-, g2, -, g4, g5⟩ := louvain_level lv hlv res tolOpt coreFuel labels1 inc hopt
+      obtain ⟨-, g2, -, g4, g5⟩ := louvain_level_capped lv hlv res tolOpt labels1 inc hopt
       have hinv' := compInv_step lv0 lv hlv memb hinv hmlen hmb (uniqueInverse labels1) g5
       split at h
       · simp only [Option.some.injEq] at h
@@ -145,27 +145,32 @@ theorem symLevel_conn (n : Nat) (A : Nat → Nat → Rat) (out inn : Nat → Rat
     obtain ⟨-, hw, hlk⟩ := symLevel_plink n A out inn _ _ hl
     exact Connected.step ih hw hlk
 
-/-- **clusters_within_components (Louvain.fit).** -/
-theorem louvainFit_comp (kind : Kind) (res tolOpt tolAgg : Rat) (nAgg : Int) (nRow nCol nnz : Nat)
-    (B : Nat → Nat → Rat) (fb : Bool) (coreFuel : Nat) (out : FitOut)
-    (h : louvainFit kind res tolOpt tolAgg nAgg nRow nCol nnz B fb coreFuel = .ok (some out)) :
-    ∀ u v, u < (kindAdj kind nRow nCol B fb).1 → v < (kindAdj kind nRow nCol B fb).1 →
-      labOf out.labels u = labOf out.labels v →
-      Connected (kindAdj kind nRow nCol B fb).1 (kindAdj kind nRow nCol B fb).2 u v := by
-  unfold louvainFit at h
+/-- **clusters_within_components (Louvain.fit as compiled)**, on the adjacency `get_adjacency` produced -/
+theorem louvainFitAdj_comp (kind : Kind) (res tolOpt tolAgg : Rat) (nAgg : Int) (n : Nat) (A : Nat → Nat → Rat)
+    (nnz : Nat) (out : FitOut) (h : louvainFitAdj kind res tolOpt tolAgg nAgg n A nnz = .ok (some out)) :
+    ∀ u v, u < n → v < n → labOf out.labels u = labOf out.labels v → Connected n A u v := by
+  unfold louvainFitAdj at h
   split at h
   · cases h
   · rename_i lv hlv
     simp only [Except.ok.injEq] at h
-    obtain ⟨w, hw, rfl⟩ := preProcess_ok _ _ _ _ _ _ _ hlv
-    have hOK := symLevel_levelOK (kindAdj kind nRow nCol B fb).1 (kindAdj kind nRow nCol B fb).2 w.1 w.2
-    have hwc := louvainLoop_comp res tolOpt tolAgg nAgg coreFuel _ _ 0 _
-      (arange (kindAdj kind nRow nCol B fb).1) [] out hOK (by simp [arange, symLevel])
+    obtain ⟨w, hw, rfl⟩ := preProcessAdj_ok _ _ _ _ _ hlv
+    have hOK := symLevel_levelOK n A w.1 w.2
+    have hwc := louvainLoopCapped_comp res tolOpt tolAgg nAgg _ _ 0 _
+      (arange n) [] out hOK (by simp [arange, symLevel])
       (fun u hu => by
-        show labOf (List.range (kindAdj kind nRow nCol B fb).1) u < (kindAdj kind nRow nCol B fb).1
-        rw [labOf_range (kindAdj kind nRow nCol B fb).1 u hu]; exact hu)
+        show labOf (List.range n) u < n
+        rw [labOf_range n u hu]; exact hu)
       (compInv_init _ hOK) h
     intro u v hu hv huv
     exact symLevel_conn _ _ _ _ u v hu (hwc u v hu hv huv)
+
+theorem louvainFitCapped_comp (kind : Kind) (res tolOpt tolAgg : Rat) (nAgg : Int) (nRow nCol nnz : Nat)
+    (B : Nat → Nat → Rat) (fb : Bool) (out : FitOut)
+    (h : louvainFitCapped kind res tolOpt tolAgg nAgg nRow nCol nnz B fb = .ok (some out)) :
+    ∀ u v, u < (kindAdj kind nRow nCol B fb).1 → v < (kindAdj kind nRow nCol B fb).1 →
+      labOf out.labels u = labOf out.labels v →
+      Connected (kindAdj kind nRow nCol B fb).1 (kindAdj kind nRow nCol B fb).2 u v :=
+  louvainFitAdj_comp kind res tolOpt tolAgg nAgg _ _ nnz out h
 
 end SkNet.Modularity
